@@ -64,9 +64,20 @@ class Collector:
         if r.status == "unsat":
             self.discharged += 1
             return True
+        md = E.model_dict(r.model)
+        try:
+            # a purely real obligation is refuted by the real-arithmetic solver, whose model does not mention the integer choices
+            # of the path (which genotype, which permutation ...): complete it from the path's integer solver
+            import z3 as _z3
+
+            if ctx.isolver.check() == _z3.sat:
+                for k_, v_ in E.model_dict(ctx.isolver.model()).items():
+                    md.setdefault(k_, v_)
+        except BaseException:
+            pass
         rec = dict(site=site, kind=kind, shape=shape or {}, config=self.cfg, desc=desc,
                    witness=E.jsonable(witness) if witness is not None else None,
-                   model=E.jsonable(E.model_dict(r.model)), claim=str(r.claim)[:600])
+                   model=E.jsonable(md), claim=str(r.claim)[:600])
         self._bad[key] = self._bad.get(key, 0) + 1
         if r.status == "sat":
             self.violations.append(rec)
